@@ -266,16 +266,21 @@ __CPROVER_ensures((BT(s)->tls_auth && BT(s)->valid_peer_names != NULL && __CPROV
         xv_rx_off == __CPROVER_old(xv_rx_off) + (rv) && XV_RX_BYTES(buf, __CPROVER_old(xv_rx_off), (rv))))
 
 /* which lengths/capacities are explored: default = the range the framing layer uses (LOWER_SEND_REQUIRES/LOWER_RECV_REQUIRES);
- * -DBT_API = everything xcm_send()/xcm_receive() pass through for a byte-stream socket: 0 and > INT_MAX included */
-#ifdef BT_API
-#define BT_LEN_OK(len) ((len) <= (1UL << 33))
-/* receive buffers: SSL_read's model stores up to INT_MAX arbitrary bytes; above BT_CAP_MAX that exhausts the solver's memory
- * (is_fresh needs a bound anyway).  The API variant also explores the capacities whose low 32 bits, as an int, are negative
- * or small: 2^31 .. 2^32 + BT_CAP_MAX */
-#define BT_CAP_OK(c) ((c) <= BT_CAP_MAX || ((c) >= (1UL << 31) && (c) < (1UL << 32)) || ((c) >= (1UL << 32) && (c) <= (1UL << 32) + BT_CAP_MAX))
+ * xcm_send()/xcm_receive() pass ANY size_t through for a byte-stream socket: variants zero and huge */
+#if defined(BT_ZERO)
+/* variant zero: the framing range plus the corner 0 (xcm_send(s, buf, 0), xcm_receive(s, buf, 0) on a byte-stream socket) */
+#define BT_LEN_OK(len) ((len) <= 0x7ffff000UL)
+#define BT_CAP_OK(c) ((c) <= BT_CAP_MAX)
+#elif defined(BT_HUGE)
+/* variant huge: lengths/capacities that do not fit the `int num` of SSL_write/SSL_read: 2^31 .. 2^33 for send; for receive
+ * those whose low 32 bits, as an int, are negative or small (SSL_read's model stores up to `num` arbitrary bytes) */
+#define BT_LEN_OK(len) ((len) > 0x7fffffffUL && (len) <= (1UL << 33))
+#define BT_CAP_OK(c) (((c) >= (1UL << 31) && (c) < (1UL << 32)) || ((c) >= (1UL << 32) && (c) <= (1UL << 32) + BT_CAP_MAX))
 #else
+/* variant lower (default): the range the framing layer uses (LOWER_SEND_REQUIRES / LOWER_RECV_REQUIRES of contracts/lower.h);
+ * receive buffers above BT_CAP_MAX are not explored: SSL_read's model stores up to `capacity` arbitrary bytes, which beyond
+ * that exhausts the solver's memory (2^17 = 2 * the largest frame the tls framing layer ever asks for) */
 #define BT_LEN_OK(len) ((len) >= 1 && (len) <= 0x7ffff000UL)
-/* receive buffers above BT_CAP_MAX are not explored (2 * the largest frame the tls framing layer ever asks for) */
 #define BT_CAP_OK(c) ((c) >= 1 && (c) <= BT_CAP_MAX)
 #endif
 #define BT_CAP_MAX (1UL << 17)
